@@ -117,11 +117,7 @@ Theorem C17_burst_any_reader : forall H decompress file flushed ra off seq A B P
   view file flushed off = A ++ B ++ xor_bytes P e ++ rest ->
   valid_at H decompress A B P rest r -> all_bytes e -> length P = length e -> burst32 e ->
   snd (read_record H decompress file flushed ra off seq) = RErr ECrc.
-Proof.
-  intros H decompress file flushed ra off seq A B P rest r e Hf Hc Hv Hval He Hl Hb.
-  rewrite read_is_decode by assumption. rewrite Hv.
-  exact (burst_in_payload_detected H (fun x => x) decompress A B P rest r e Hval He Hl Hb).
-Qed.
+Proof. exact burst_any_reader. Qed.
 
 (** STATED LIMIT (C17_full, not provable and not true for all data): an error in the low 31 bits of the LENGTH
     word changes the extent that is checksummed, and a burst that straddles the crc-field/payload boundary is a
@@ -156,17 +152,15 @@ Theorem C17_orig_panics :
 Proof. split; vm_compute; reflexivity. Qed.
 
 (** ** non-vacuity *)
-Definition ex_compress (x : list N) : list N := 7 :: x.
-Definition ex_decompress (x : list N) : option (list N) := match x with 7 :: t => Some t | _ => None end.
-Example C17_ex_codec_ok : (forall x, ex_decompress (ex_compress x) = Some x).
-Proof. reflexivity. Qed.
+Example C17_ex_codec_ok : codec_ok wit_compress wit_decompress.
+Proof. exact wit_codec_ok. Qed.
 Example C17_ex_roundtrip :
-  parse_record 2 ex_decompress (stored_record 2 ex_compress false [1;2] [104;105] ++ [0;0]) 0 = ROk ([1;2], [104;105], 12).
+  parse_record 2 wit_decompress (stored_record 2 wit_compress false [1;2] [104;105] ++ [0;0]) 0 = ROk ([1;2], [104;105], 12).
 Proof. vm_compute. reflexivity. Qed.
 Example C17_ex_burst : burst32 [0; 24; 0].
 Proof. exists 11%nat, [true], 11%nat. split; [reflexivity|cbn; lia]. Qed.
 Example C17_ex_single_bit_detected :
-  parse_record 2 ex_decompress (xor_bytes (stored_record 2 ex_compress false [1;2] [104;105]) [0;0;0;0; 0;0;0;0; 0;4;0;0]) 0 = RErr ECrc.
+  parse_record 2 wit_decompress (xor_bytes (stored_record 2 wit_compress false [1;2] [104;105]) [0;0;0;0; 0;0;0;0; 0;4;0;0]) 0 = RErr ECrc.
 Proof. vm_compute. reflexivity. Qed.
 
 Print Assumptions C17_crc_burst.
